@@ -24,7 +24,7 @@ for pid, p in props.items():
     subprocess.run(["git", "-C", "/repo", "worktree", "add", "-q", "--detach", wt, "HEAD"], check=True)
     os.makedirs(wt + "/mutation", exist_ok=True)
     taken = []
-    for suffix in "abcdefghij":
+    for suffix in "abcdefghijklmn":
         m = os.path.join(HERE, "seeded", "%s-%s" % (pid, suffix), "meta.json")
         if os.path.exists(m):
             taken.append(json.load(open(m)).get("summary", ""))
@@ -57,6 +57,6 @@ DELIVERABLES (all inside {wt}/mutation/):
   2. demo.py     - a small self-contained program that demonstrates the broken property: run as `cd {wt} && /venv/bin/python mutation/demo.py` it must exit with a NON-ZERO status (and print what went wrong) with your change applied, and exit 0 on the unmodified library. It must start with `import os, sys; sys.path.insert(0, os.getcwd())`. Verify both ways (apply -R / apply as described above). demo.py should check the property's behaviour directly through the public API, not internal names.
   3. meta.json   - {{"property": "{pid}", "summary": "<one sentence: what was changed>", "needs": "<what specific input/sequence/kind/interleaving is needed for the break to manifest>", "files": [...], "tests_still_pass": true/false, "test_summary_line": "<last line of pytest output with the change applied>"}}
 
-Leave the change APPLIED in the worktree's working tree when you finish (do not commit) and make sure `git -C {wt} diff -- icontract` equals your patch.diff. Before finishing, re-run the full test suite with the change applied and confirm the pass count is still 358 with the same 6 failures; if a test newly fails, pick a different change. Keep the patch small (ideally under 15 changed lines). In your final message, summarise the change, what it needs to manifest, and the test result line."""
+Leave the change APPLIED in the worktree's working tree when you finish (do not commit) and make sure `git -C {wt} diff -- icontract` equals your patch.diff. Before finishing, re-run the full test suite with the change applied and confirm the pass count is still 358 with the same 6 failures; if a test newly fails, pick a different change. Keep the patch small (ideally under 15 changed lines). In your final message, summarise the change, what it needs to manifest, and the test result line. In addition, at the end of your final message, list any defect you noticed that already exists on the UNMODIFIED library (a legal use of the public API in which the property does not hold), with a minimal reproducer each; do not build your change on those."""
     open(wt + "/mutation/PROMPT.txt", "w").write(text)
     print("prepared", wt)
